@@ -263,8 +263,8 @@ package eval
 //@   ensures  @C01 stop:: implies(isErr(result) || isRet(result), captured(last) && result == last)
 //@   property C10 C04 C01
 
-// if / else (C01): exactly one branch is evaluated, chosen by the condition's boolean value; a non-boolean condition is
-// an error and evaluates neither.
+// if / else (C01): exactly one branch is evaluated, chosen by the boolean value of the condition (dereferenced: it may be
+// a variable of an outer scope); a non-boolean condition is an error and evaluates neither.
 //@ func (*State).evalIfExpression
 //@   requires s != nil && s.env != nil
 //@   modifies heap
@@ -277,9 +277,10 @@ package eval
 //@   ensures  regs:: regsame()
 //@   ensures  @C04 mono:: missmono()
 //@   onpanic ensures regs:: regsame()
-//@   witness c = callresult after evalInternal#1
+//@   witness c = callresult after Value#1
 //@   witness t = callresult after evalInternal#2
 //@   witness e = callresult after evalInternal#3
+//@   ensures  @C01 deref:: captured(c) && !isType(c, object.Reference)
 //@   ensures  @C01 thenbranch:: implies(isBool(c) && boolVal(c), captured(t) && !captured(e) && result == t)
 //@   ensures  @C01 elsebranch:: implies(isBool(c) && !boolVal(c), captured(e) && !captured(t) && result == e)
 //@   ensures  @C01 nonbool:: implies(!isBool(c), isErr(result) && !captured(t) && !captured(e))
